@@ -23,6 +23,7 @@ pub struct OStats {
     pub windows: u64,
     pub queries_judged: u64,
     pub queries_skipped_inexact: u64,
+    pub queries_skipped_pipeline: u64,
     pub replies_judged: u64,
     pub replies_expected_and_seen: u64,
     pub silent_expected_and_seen: u64,
@@ -71,7 +72,7 @@ pub struct OStats {
 impl OStats {
     pub fn add(&mut self, o: &OStats) {
         macro_rules! acc { ($($f:ident),*) => { $( self.$f += o.$f; )* } }
-        acc!(windows, queries_judged, queries_skipped_inexact, replies_judged, replies_expected_and_seen,
+        acc!(windows, queries_judged, queries_skipped_inexact, queries_skipped_pipeline, replies_judged, replies_expected_and_seen,
             silent_expected_and_seen, store_mutated_between_recv_and_lock, writer_waited_for_reader,
             replies_parse_checked, other_sends_parse_checked, ingests, ingests_fuzzy, ingested_records,
             ingest_filtered_own, ingest_filtered_foreign, known_exact, known_exact_nonempty, known_safety_only,
@@ -559,6 +560,41 @@ pub fn analyse(sc: &Scenario, out: &RunOutput) -> Analysis {
 
     let parent_of = |d: u32| -> u32 { res.dgrams[d as usize].parent.unwrap_or(d) };
 
+    // Responders restructured into a pipeline (one task receives, another builds and sends the
+    // reply): the per-thread handler windows below cannot attribute such replies, so for these
+    // nodes the reply judgement is skipped (counted) instead of reporting "no reply". Evidence:
+    // on a responder node a service thread other than the one that dequeued a query sends a
+    // response carrying that query's id shortly afterwards. The unchanged responders have a
+    // single service thread, so nothing is skipped there.
+    let mut pipeline_nodes: HashSet<u32> = HashSet::new();
+    {
+        let mut last_query: HashMap<(u32, u16), (u32, u64)> = HashMap::new();
+        for e in &res.trace {
+            let n = e.node as usize;
+            if n >= sc.nodes.len() || !matches!(sc.nodes[n].kind, NodeKind::Responder { .. }) || !res.thread_names[e.tid as usize].contains('/') {
+                continue;
+            }
+            match &e.kind {
+                EvKind::Recv { dgram, .. } => {
+                    let b = &res.dgrams[*dgram as usize].bytes;
+                    if b.len() >= 12 && b[2] & 0x80 == 0 {
+                        last_query.insert((e.node, u16::from_be_bytes([b[0], b[1]])), (e.tid, e.t));
+                    }
+                }
+                EvKind::Send { dgram, .. } => {
+                    let b = &res.dgrams[*dgram as usize].bytes;
+                    if b.len() >= 12 && b[2] & 0x80 != 0 {
+                        if let Some((rtid, t0)) = last_query.get(&(e.node, u16::from_be_bytes([b[0], b[1]]))) {
+                            if *rtid != e.tid && e.t.saturating_sub(*t0) < 10_000_000_000 {
+                                pipeline_nodes.insert(e.node);
+                            }
+                        }
+                    }
+                }
+                _ => {}
+            }
+        }
+    }
     macro_rules! close_window {
         ($tid:expr, $w:expr, $truncated:expr) => {{
             let w: Window = $w;
@@ -569,7 +605,9 @@ pub fn analyse(sc: &Scenario, out: &RunOutput) -> Analysis {
                 st.tokio_windows += 1;
             }
             if let Some(q) = &w.query {
-                if !w.exact {
+                if pipeline_nodes.contains(&node) {
+                    st.queries_skipped_pipeline += 1;
+                } else if !w.exact {
                     st.queries_skipped_inexact += 1;
                 } else if let Some(exp) = &w.expect {
                     st.queries_judged += 1;
@@ -641,7 +679,7 @@ pub fn analyse(sc: &Scenario, out: &RunOutput) -> Analysis {
     // a changed repository may use further locks, which say nothing about the store
     let store_locks: HashSet<u32> = res.marks.iter().filter_map(|m| m.strip_prefix("storelock:").and_then(|x| x.parse().ok())).collect();
     let is_store_lock = |l: u32| store_locks.is_empty() || store_locks.contains(&l);
-    for ev in &res.trace {
+    for (ev_idx, ev) in res.trace.iter().enumerate() {
         let Ev { seq, lt, tid, node, kind, t: tglob } = ev;
         let (seq, lt, tid, node, tglob) = (*seq, *lt, *tid, *node, *tglob);
         match kind {
@@ -717,7 +755,17 @@ pub fn analyse(sc: &Scenario, out: &RunOutput) -> Analysis {
                 }
             }
             EvKind::LockAcq { lock, .. } if !is_store_lock(*lock) => {}
-            EvKind::LockAcq { write, .. } => {
+            EvKind::LockAcq { write, lock: acq_lock } => {
+                // node-local time at which this thread releases the lock again: while a read
+                // lock is held the store cannot change, but time can pass (a scheduling point
+                // inside the locked region, a pre-empted thread), so anything that expires
+                // between acquire and release may or may not be seen by the reader
+                let lt_rel = res.trace[ev_idx + 1..]
+                    .iter()
+                    .find(|e| e.tid == tid && matches!(e.kind, EvKind::LockRel { lock, .. } if lock == *acq_lock))
+                    .map(|e| e.lt)
+                    .unwrap_or(lt)
+                    .max(lt);
                 if lock_wait.remove(&tid).is_some() && *write {
                     st.writer_waited_for_reader += 1;
                 }
@@ -857,7 +905,7 @@ pub fn analyse(sc: &Scenario, out: &RunOutput) -> Analysis {
                                 }
                                 (AppOp::GetKnown, false) if false => {}
                                 (AppOp::GetKnown, false) => {
-                                    let (exp, sup, exact, expired) = expected_known(m, lt, &mut st);
+                                    let (exp, sup, exact, expired) = expected_known(m, lt, lt_rel, &mut st);
                                     expect_known.insert(mark_seq, (n as u32, exp, sup, exact, expired));
                                 }
                                 (AppOp::DumpStore, false) => {
@@ -872,7 +920,7 @@ pub fn analyse(sc: &Scenario, out: &RunOutput) -> Analysis {
                                             // share a key and differ in the EDNS version bits
                                             continue;
                                         }
-                                        if e.expires > lt && !e.optional {
+                                        if e.expires > lt_rel && !e.optional {
                                             live.insert(k.clone());
                                         } else if e.expires >= lt {
                                             maybe.insert(k.clone());
@@ -979,6 +1027,18 @@ pub fn analyse(sc: &Scenario, out: &RunOutput) -> Analysis {
                         }
                     } else {
                         st.other_sends_parse_checked += 1;
+                        // a probe may be answered by another task than the one that dequeued it
+                        if let Ok(m) = refdns::decode(&dg.bytes, false) {
+                            if let Some(target) = probe_targets.get(&m.id) {
+                                if *target == node && m.is_response() {
+                                    if let Some(t0) = probe_send_t.get(&m.id) {
+                                        if tglob.saturating_sub(*t0) <= PROBE_WINDOW_MS * 1_000_000 {
+                                            probe_answered.insert(m.id);
+                                        }
+                                    }
+                                }
+                            }
+                        }
                         if let NodeKind::Discovery { instance, ttl, asyncv: true, .. } = &sc.nodes[node as usize].kind {
                             // the tokio variant announces from its execution task
                             let m = &models[node as usize];
@@ -1235,7 +1295,7 @@ pub fn analyse(sc: &Scenario, out: &RunOutput) -> Analysis {
 
 /// Expected result of get_known_services at local time `now`:
 /// (exact expectation if unambiguous, superset of justifiable instances, exact?)
-fn expected_known(m: &NodeModel, now: u64, st: &mut OStats) -> (Option<Vec<InstObs>>, Vec<InstObs>, bool, Vec<String>) {
+fn expected_known(m: &NodeModel, now: u64, until: u64, st: &mut OStats) -> (Option<Vec<InstObs>>, Vec<InstObs>, bool, Vec<String>) {
     let mut exact = !m.fuzzy_ingest && !m.removed;
     let mut groups: BTreeMap<Labels, Vec<&RecKey>> = BTreeMap::new();
     let mut all_groups: BTreeMap<Labels, Vec<&RecKey>> = BTreeMap::new();
@@ -1251,10 +1311,12 @@ fn expected_known(m: &NodeModel, now: u64, st: &mut OStats) -> (Option<Vec<InstO
         if e.optional && e.expires >= now {
             exact = false;
         }
-        if e.expires == now {
-            exact = false; // the single instant at which either answer is acceptable
+        if e.expires >= now && e.expires <= until {
+            // expiring while the reader holds the lock (a single instant in the unchanged code,
+            // where nothing inside the locked region is a scheduling point): either answer
+            exact = false;
         }
-        if e.expires > now {
+        if e.expires > until {
             groups.entry(k.owner.clone()).or_default().push(k);
         } else {
             had_expired = true;
